@@ -9,6 +9,7 @@ import Nstd.Life.LemmasCopyNode
 import Nstd.Life.LemmasSetSelf
 import Nstd.Life.LemmasRefine
 import Nstd.Life.LemmasCount
+import Nstd.Life.LemmasSortExec
 /-
   Property theorems of the Life area.
 
@@ -324,5 +325,34 @@ example : (absArr (run (init per4) aliasOps) 0)[0]? = some (some 5) ∧ ((run (i
     ((run (init per4) aliasOps).arrs 0).cap = 3 ∧ ((run (init per4) aliasOps).arrs 0).alive = true ∧
     ((run (init per4) aliasOps).nodes ⟨.L, 0⟩).alive = true ∧ (absNode (run (init per4) aliasOps) ⟨.L, 0⟩).length = 2 := by
   decide +kernel
+
+-- C04: List::sort -------------------------------------------------------------------------------------------------------
+
+/-- C04 `sort_only_assigns`.  `l.sort()` (model op `lSort v orc`: the quicksort of List.hpp on the nodes; `orc` dictates the outcomes of
+    the first comparisons `a < b` of the element type, i.e. ANY comparator, consistent or not, honest `<` afterwards), in EVERY state:
+    the operation never faults (`no_fault`), it changes no item list, no free list, no block and no array - it relinks nothing,
+    constructs and destroys NO stored element, allocates and frees nothing - and every event it emits is an assignment to the value
+    object of a node of this list whose source is the value object of a node of this list or the caller-side temporary `tmp` of
+    `QuickSort::swap` (`T tmp = a->value; a->value = b->value; b->value = tmp;`: one temporary per swap call, copy-constructed from
+    `a->value` and destroyed at the end of the call - the only objects `sort` creates; each shows as one assignment from `ext`).
+    Since all these objects are items of the list, they are live (`linked_objects_live`), whatever the comparator answers: no
+    comparator can make `sort` touch a destroyed object or leave the list (`LemmasSort.sortRange_ok`: every node index stays inside
+    [left, right], the recursion fuel suffices). -/
+theorem sort_only_assigns (st : State) (v : Nat) (orc : List Bool) :
+    (step st (.lSort v orc)).nodes = st.nodes ∧ (step st (.lSort v orc)).blk = st.blk ∧ (step st (.lSort v orc)).arrs = st.arrs ∧
+      ∃ evs, (step st (.lSort v orc)).log = st.log ++ evs ∧ ∀ e, e ∈ evs → SortEv st ⟨.L, v⟩ e :=
+  step_sort st v orc
+
+/-- `sort()` always compiles: for every state, list and comparator the simulated quicksort terminates within its fuel and every
+    step is an assignment to a node inside the list -/
+theorem sort_compiles (st : State) (v : Nat) (orc : List Bool) :
+    ∃ ms, sortMicros st v orc = some ms ∧ SortOk ⟨.L, v⟩ (st.nodes ⟨.L, v⟩).items.length ms :=
+  sortMicros_ok st v orc
+
+/-- non-vacuity: sorting 3 1 2 under the honest comparator and under an inconsistent one (first five answers: yes no yes yes no) -/
+def sortOps : List Op := [.lInsert 0 none 3, .lInsert 0 none 1, .lInsert 0 none 2]
+example : absNode (step (run (init per4) sortOps) (.lSort 0 [])) ⟨.L, 0⟩ = [(none, some 1), (none, some 2), (none, some 3)] ∧
+    (absNode (step (run (init per4) sortOps) (.lSort 0 [true, false, true, true, false])) ⟨.L, 0⟩).length = 3 ∧
+    ((step (run (init per4) sortOps) (.lSort 0 [])).log.length > (run (init per4) sortOps).log.length) = true := by decide +kernel
 
 end Nstd.Life
